@@ -3923,7 +3923,10 @@ static int bufr_load_datasubsets( FILE *fp, BUFR_Dataset *dts, int lineno, BUFR_
                else
                   ival64 = bufr_missing_int();
 
-					bufr_descriptor_set_ivalue( cb, ival64 );
+               if (cb->value->type == VALTYPE_INT64)
+                  bufr_value_set_int64( cb->value, ival64 ); /* bufr_descriptor_set_ivalue takes 32 bits */
+               else
+                  bufr_descriptor_set_ivalue( cb, ival64 );
 
                if (debug)
                   {
